@@ -92,6 +92,7 @@ type walker struct {
 	loopW   map[*ssa.BasicBlock]*effectSet // classes written by the loop of a header
 	subst   map[int]*Term                  // free variable cell contents (optional)
 	substV  map[int]*Term                  // free variables bound by value (optional)
+	cells   map[string]*Term               // contents of cells of the enclosing function, by alloc key
 }
 
 type pstate struct {
@@ -230,16 +231,18 @@ func (an *Analysis) PathsWithFree(fn *ssa.Function, subst, substV map[int]*Term)
 func (an *Analysis) ClosurePaths(ev *Event) *FuncPaths {
 	clo := ev.Val
 	subst, substV := map[int]*Term{}, map[int]*Term{}
+	cells := map[string]*Term{}
 	for i, b := range clo.Args {
+		// the free variable itself denotes what it was bound to (a cell's address, or a value)
+		substV[i] = b
 		if b.Op == "alloc" {
 			if i < len(ev.Args) && ev.Args[i] != nil && !an.freeVarWritten(ev.SSAFn, i) && storesTo(b.Val) <= 1 {
-				subst[i] = ev.Args[i]
+				cells[b.Key()] = ev.Args[i]
 			}
-		} else {
-			substV[i] = b
 		}
 	}
-	return an.computePaths2(ev.SSAFn, subst, substV)
+	fp := an.computePaths3(ev.SSAFn, subst, substV, cells)
+	return fp
 }
 
 func (an *Analysis) computePaths(fn *ssa.Function, subst map[int]*Term) *FuncPaths {
@@ -247,7 +250,11 @@ func (an *Analysis) computePaths(fn *ssa.Function, subst map[int]*Term) *FuncPat
 }
 
 func (an *Analysis) computePaths2(fn *ssa.Function, subst, substV map[int]*Term) *FuncPaths {
-	w := &walker{an: an, fn: fn, out: &FuncPaths{Fn: fn}, headers: map[*ssa.BasicBlock]bool{}, loopW: map[*ssa.BasicBlock]*effectSet{}, subst: subst, substV: substV}
+	return an.computePaths3(fn, subst, substV, nil)
+}
+
+func (an *Analysis) computePaths3(fn *ssa.Function, subst, substV map[int]*Term, cells map[string]*Term) *FuncPaths {
+	w := &walker{an: an, fn: fn, out: &FuncPaths{Fn: fn}, headers: map[*ssa.BasicBlock]bool{}, loopW: map[*ssa.BasicBlock]*effectSet{}, subst: subst, substV: substV, cells: cells}
 	if len(fn.Blocks) == 0 {
 		w.out.Unproven = "no body"
 		return w.out
@@ -573,6 +580,12 @@ func (w *walker) load(st *pstate, addr *Term, typ types.Type) *Term {
 	k := addr.Key()
 	if v, ok := st.mem[k]; ok {
 		return v
+	}
+	// cells of the enclosing function with known contents
+	if addr.Op == "alloc" && w.cells != nil {
+		if c, ok := w.cells[addr.Key()]; ok {
+			return c
+		}
 	}
 	// free-variable cells with known contents
 	if addr.Op == "free" && w.subst != nil {
